@@ -6,52 +6,82 @@ Technique: every operation issues a bounded number of primitive calls, each of w
 head of the fault oracle.  `oracle_step` consumes one answer: it splits the oracle into `[]`
 (every remaining call succeeds), `false :: fl` and `true :: fl`, simplifies with the `secmem` simp set
 (one call of `Run.call` evaluates) and generalises over the rest of the oracle again.  Iterating it
-walks every path of the operation — linearly many goals, since a failure path ends quickly.
+walks every path of the operation — linearly many goals, since a failure path ends quickly.  The
+properties are Bool-valued checkers over the operation's output (one copy of the term to evaluate);
+their meaning is unfolded once, independently of the paths.
 -/
 namespace AsherahVerif.SecMem
 
 attribute [secmem] Run.call Run.copyIn Run.clean Run.wipeIf Run.wipe failOut okOut Page.writable Page.readable
-  applyPrim failPrim Prim.alwaysFails Page.absent mkSec anyFailed cleanupFailed releasesClean wipeBeforeRelease
-  Content.isSecret inuseDelta allocDelta
+  applyPrim failPrim Prim.alwaysFails Page.absent mkSec
+
+attribute [secmemchk] anyFailed cleanupFailed releasesClean wipeBeforeRelease Content.isSecret inuseDelta allocDelta
+  Page.writable Page.readable
 
 macro "oracle_step" : tactic => `(tactic|
-  (intro fl; rcases fl with _ | ⟨_ | _, fl⟩ <;> (try simp [secmem]) <;> (try revert fl)))
+  (intro fl; rcases fl with _ | ⟨_ | _, fl⟩ <;> (try simp only [secmem, List.headD_cons, List.headD_nil, List.tail_cons,
+      List.tail_nil, Bool.not_true, Bool.not_false, Bool.and_true, Bool.true_and, Bool.and_false, Bool.false_and,
+      if_true, if_false, Bool.false_eq_true, List.nil_append, List.cons_append, List.append_assoc, Prod.fst, Prod.snd]) <;>
+    (try revert fl)))
 
-/-- walk all paths of an operation with at most `n` primitive calls. -/
-macro "oracle_walk" : tactic => `(tactic| iterate 14 (all_goals (try oracle_step)))
+/-- walk all paths of an operation with at most 14 primitive calls, then evaluate the checkers. -/
+macro "oracle_walk" : tactic => `(tactic| (iterate 14 (all_goals (try oracle_step))) <;> (try simp [secmemchk]))
 
-/-! ### a freshly created secret: idle -/
+/-! ### the resting state of a live secret -/
 
-/-- the resting state of a live secret: mapped, locked, excluded from dumps, PROT_NONE, holding the
-bytes it was created with, no readers, not closing. -/
-structure Idle (s : Sec) : Prop where
-  closing : s.closing = false
-  closed : s.closed = false
-  counter : s.counter = 0
-  mapped : s.page.mapped = true
-  locked : s.page.locked = true
-  dontdump : s.page.dontdump = true
-  prot : s.page.prot = .none
-  content : s.page.content = s.born
-  secret : s.born.isSecret = true
+/-- mapped, locked, excluded from dumps, PROT_NONE, holding the bytes it was created with, no
+readers, not closing. -/
+def Sec.idle (s : Sec) : Bool :=
+  !s.closing && !s.closed && s.counter == 0 && s.page.mapped && s.page.locked && s.page.dontdump &&
+  s.page.prot == .none && s.page.content == s.born && s.born.isSecret
 
-/-! ### creation -/
+/-! ### creation: Bool checkers evaluated on every path -/
 
-/-- what every creation guarantees, whatever the code shape flags and the faults. -/
-structure CreateSound (o : CreateOut) : Prop where
-  fail_is_error : anyFailed o.evs = true → o.res ≠ .ok
-  no_crash : o.res ≠ .crash ∧ o.crashed = false
-  no_deadlock : o.res ≠ .deadlock ∧ o.res ≠ .closedErr
-  ok_sec : o.res = .ok → ∃ s, o.sec = some s ∧ Idle s ∧ o.page = s.page ∧ anyFailed o.evs = false
-  fail_sec : o.res ≠ .ok → o.sec = none
-  inuse : inuseDelta o.evs = if o.res = .ok then 1 else 0
-  alloc : allocDelta o.evs = if o.res = .ok then 1 else 0
+/-- what every creation guarantees, whatever the code-shape flags and the faults:
+a failed primitive ⇒ not ok; never a crash / deadlock; ok ⇒ an idle secret on exactly that page and
+no primitive failed; not ok ⇒ no secret; the counters move iff ok. -/
+def createSoundB (o : CreateOut) : Bool :=
+  (!anyFailed o.evs || o.res != .ok) &&
+  (o.res != .crash && !o.crashed && o.res != .deadlock && o.res != .closedErr) &&
+  (o.res != .ok || (match o.sec with
+                    | some s => s.idle && o.page == s.page && !anyFailed o.evs
+                    | none => false)) &&
+  (o.res == .ok || o.sec.isNone) &&
+  (inuseDelta o.evs == if o.res == .ok then 1 else 0) &&
+  (allocDelta o.evs == if o.res == .ok then 1 else 0)
 
-theorem pmNew_sound (cfg : Cfg) (id len : Nat) : ∀ fl, CreateSound (pmNew cfg id len fl) := by
+/-- an ERROR return (not a library panic) leaves the page it touched unmapped or without secret
+bytes, and unmapped + unlocked whenever no cleanup primitive (Unlock / Free) itself failed. -/
+def leavesNoSecretB (o : CreateOut) : Bool :=
+  o.res != .err ||
+  ((!o.page.mapped || !o.page.content.isSecret) &&
+   (cleanupFailed o.evs || (!o.page.mapped && !o.page.locked)))
+
+/-- the part of it that holds without the repair: nothing stays mapped or locked when the cleanup
+primitives did not fail. -/
+def leavesNothingMappedB (o : CreateOut) : Bool :=
+  o.res != .err || cleanupFailed o.evs || (!o.page.mapped && !o.page.locked)
+
+/-- in the trace, the Wipe of the page precedes its Unlock / Free; and no Unlock / Free is issued
+on a page holding secret bytes. -/
+def wipeOkB (evs : List Ev) : Bool := wipeBeforeRelease false evs && releasesClean evs
+
+/-- a creation error always reports an error (never a panic): protectedmemory only. -/
+def errorNotPanicB (o : CreateOut) : Bool := !anyFailed o.evs || o.res == .err
+
+attribute [secmemchk] createSoundB leavesNoSecretB leavesNothingMappedB wipeOkB errorNotPanicB Sec.idle
+
+/-- everything checked of a protectedmemory creation; `wiped` = the failure paths wipe first. -/
+def pmChk (wiped : Bool) (o : CreateOut) : Bool :=
+  createSoundB o && leavesNothingMappedB o && errorNotPanicB o && (!wiped || (leavesNoSecretB o && wipeOkB o.evs))
+
+attribute [secmemchk] pmChk
+
+theorem pmNew_checks (cfg : Cfg) (id len : Nat) : ∀ fl,
+    pmChk cfg.wipeOnNewProtectFail (pmNew cfg id len fl) = true := by
   obtain ⟨c1, c2, c3, c4, c5⟩ := cfg
   unfold pmNew pmNewSecret
   by_cases hl : len < 1 <;> cases c1 <;> cases c2 <;> simp only [hl, if_false, if_true] <;>
   oracle_walk
-  all_goals sorry
 
 end AsherahVerif.SecMem
